@@ -4,12 +4,66 @@ longblock  blocks far longer than the usual test sizes (129..400 samples, small
            integers so that every sum is exact): acorr and lag_matrix must be
            the plain sums, and lpc.kautocor must satisfy the normal equations
            of that exact autocorrelation
+exactld / exactauto / exactcov
+           (audit round) every input sample a Fraction: nothing in the
+           computation needs a float then, and the statement ends "in exact
+           arithmetic all of these are equalities".  The returned coefficients
+           and error are converted exactly and every normal equation / the
+           error identity is tested with ``==``.  This class reaches what no
+           tolerance can: reflection coefficients a hair inside the unit
+           interval (1 - 1e-17), lags far outside the float range
+           (1e-400, 1e+400), ill-conditioned blocks (binomial rows) - inputs on
+           which a float recursion divides by zero, overflows or is off by
+           orders of magnitude although the exact recursion is well defined.
 """
 from fractions import Fraction
 
-from audiolazy import acorr, lag_matrix, lpc
+from math import comb
 
-KINDS = ("longblock",)
+from audiolazy import acorr, lag_matrix, levinson_durbin, lpc
+
+KINDS = ("longblock", "exactld", "exactauto", "exactcov")
+
+HAIR = [Fraction(1, 10 ** 17), Fraction(1, 10 ** 30), Fraction(1, 2 ** 60)]
+SCALE = [Fraction(1), Fraction(1), Fraction(1, 10 ** 400), Fraction(10 ** 400),
+         Fraction(3, 7), Fraction(10 ** 18)]
+
+
+def step_up(ks, r0):
+  """Reflection coefficients -> lags r[0..p] (exact)."""
+  a, r, err = [Fraction(1)], [Fraction(r0)], Fraction(r0)
+  for m, k in enumerate(ks, 1):
+    r.append(-(k * err + sum(a[j] * r[m - j] for j in range(1, m))))
+    ext = a + [Fraction(0)]
+    a = [ext[j] + k * ext[m - j] for j in range(m + 1)]
+    err *= 1 - k * k
+  return r
+
+
+def exact_k(rng):
+  t = rng.random()
+  if t < 0.2:                       # a hair inside (-1, 1)
+    return rng.choice([-1, 1]) * (1 - rng.choice(HAIR))
+  if t < 0.3:
+    return Fraction(0)
+  d = rng.randint(2, 12)
+  return Fraction(rng.randint(-(d - 1), d - 1), d)
+
+
+def exact_block(rng):
+  t = rng.random()
+  if t < 0.15:                      # binomial rows: very ill conditioned
+    n = rng.randint(4, 25)
+    blk = [Fraction(comb(n - 1, k)) for k in range(n)]
+  elif t < 0.3:
+    n = rng.randint(2, 10)
+    blk = [Fraction(1) + Fraction(rng.randint(-3, 3), 10 ** 12)
+           for _ in range(n)]
+  else:
+    n = rng.randint(2, 9)
+    blk = [Fraction(rng.randint(-9, 9), rng.randint(1, 7)) for _ in range(n)]
+  s = rng.choice(SCALE)
+  return [v * s for v in blk]
 
 
 def cases(ctx):
@@ -18,9 +72,136 @@ def cases(ctx):
     n = rng.choice([129, 130, 131, 200, 201, 255, 256, 257, rng.randint(129, 400)])
     x = [rng.randint(-4, 4) for _ in range(n)]
     yield ("longblock", x, rng.randint(0, 4), rng.randint(1, 3))
+  for _ in ctx.loop(300, 20000):
+    t = rng.random()
+    if t < 0.4:
+      p = rng.randint(1, 7)
+      r = step_up([exact_k(rng) for _ in range(p)],
+                  rng.choice(SCALE) * rng.randint(1, 9))
+      yield ("exactld", r, rng.choice([None, p, max(1, p - 1), p + 2]))
+    elif t < 0.7:
+      blk = exact_block(rng)
+      yield ("exactauto", blk, rng.randint(1, len(blk) + 1))
+    else:
+      blk = exact_block(rng)
+      if len(blk) >= 3:
+        yield ("exactcov", blk, rng.randint(1, (len(blk) - 1) // 2 or 1))
+
+
+def exact_recursion_ok(r, p):
+  """Does the exact Levinson recursion on r[0..p] run without dividing by
+  zero, on a positive definite r (an autocorrelation sequence)?"""
+  a, err = [Fraction(1)], r[0]
+  for m in range(1, p + 1):
+    if err <= 0:
+      return False
+    k = -sum(a[j] * r[m - j] for j in range(m)) / err
+    if abs(k) >= 1 and m < p:
+      return False
+    ext = a + [Fraction(0)]
+    a = [ext[j] + k * ext[m - j] for j in range(m + 1)]
+    err = err * (1 - k * k)
+  return True
+
+
+def read_exact(filt, p):
+  a = [Fraction(c) for c in filt.numerator]
+  return a + [Fraction(0)] * (p + 1 - len(a)), Fraction(filt.error)
+
+
+def judge_exact(ctx, case, tag, a, err, mat, p):
+  """sum_j mat[i][j] a[j] == 0 (i = 1..p), err == sum_j mat[0][j] a[j]."""
+  if a[0] != 1 or len(a) != p + 1:
+    ctx.violation(tag + "/not-monic-of-order-p", case, a=[str(v) for v in a])
+    return
+  for i in range(1, p + 1):
+    res = sum(mat[i][j] * a[j] for j in range(p + 1))
+    if res != 0:
+      ctx.violation(tag + "/normal-equation-is-not-an-equality", case, row=i,
+                    residual=str(res) if res.denominator < 10 ** 30
+                    else float(res), a=[float(v) for v in a])
+      return
+  ctx.count(tag + ":equalities-checked", p)
+  want = sum(mat[0][j] * a[j] for j in range(p + 1))
+  if err != want:
+    ctx.violation(tag + "/error-is-not-the-exact-value", case,
+                  error=float(err), want=float(want))
+
+
+def run_exact(ctx, case):
+  kind = case[0]
+  if kind == "exactld":
+    _, r, order = case
+    p = len(r) - 1 if order is None else order
+    r_ext = list(r) + [Fraction(0)] * (p + 1 - len(r))
+    if not exact_recursion_ok(r_ext, p):
+      ctx.count("exactld:not-judged/not-an-autocorrelation-or-divides-by-zero")
+      return False
+    try:
+      filt = levinson_durbin(list(r)) if order is None else \
+             levinson_durbin(list(r), order)
+    except (ZeroDivisionError, OverflowError) as exc:
+      ctx.violation("exactld/raises-%s-though-the-exact-recursion-is-defined"
+                    % type(exc).__name__, case)
+      return True
+    a, err = read_exact(filt, p)
+    mat = [[r_ext[abs(i - j)] for j in range(p + 1)] for i in range(p + 1)]
+    judge_exact(ctx, case, "exactld", a, err, mat, p)
+    if any(abs(v) > 10 ** 300 or 0 < abs(v) < Fraction(1, 10 ** 300)
+           for v in r):
+      ctx.count("exactld:outside-the-float-range")
+    return True
+  _, blk, p = case
+  n = len(blk)
+  if kind == "exactauto":
+    r = [sum(blk[i] * blk[i + t] for i in range(n - t)) if t < n else
+         Fraction(0) for t in range(p + 1)]
+    if not exact_recursion_ok(r, p):
+      ctx.count("exactauto:not-judged/zero-block-or-divides-by-zero")
+      return False
+    try:
+      filt = lpc.kautocor(list(blk), p)
+    except (ZeroDivisionError, OverflowError) as exc:
+      ctx.violation("exactauto/raises-%s-though-the-exact-recursion-is-defined"
+                    % type(exc).__name__, case)
+      return True
+    a, err = read_exact(filt, p)
+    mat = [[r[abs(i - j)] for j in range(p + 1)] for i in range(p + 1)]
+    judge_exact(ctx, case, "exactauto", a, err, mat, p)
+    # the error is the energy of a convolved with the zero-extended block
+    xpad = [Fraction(0)] * p + list(blk) + [Fraction(0)] * p
+    energy = sum(sum(a[j] * xpad[p + m - j] for j in range(p + 1)) ** 2
+                 for m in range(n + p))
+    if err != energy:
+      ctx.violation("exactauto/error-is-not-the-residual-energy", case,
+                    error=float(err), energy=float(energy))
+    return True
+  # exactcov: "when it returns"
+  if p >= n:
+    return False
+  try:
+    filt = lpc.kcovar(list(blk), p)
+  except (ZeroDivisionError, ValueError):
+    ctx.count("exactcov:does-not-return")
+    return False
+  except OverflowError as exc:
+    ctx.violation("exactcov/raises-OverflowError-on-exact-samples", case)
+    return True
+  phi = [[sum(blk[m - i] * blk[m - j] for m in range(p, n))
+          for j in range(p + 1)] for i in range(p + 1)]
+  a, err = read_exact(filt, p)
+  judge_exact(ctx, case, "exactcov", a, err, phi, p)
+  resid = sum(sum(a[j] * blk[m - j] for j in range(p + 1)) ** 2
+              for m in range(p, n))
+  if err != resid:
+    ctx.violation("exactcov/error-is-not-the-residual-energy", case,
+                  error=float(err), energy=float(resid))
+  return True
 
 
 def run_case(ctx, case):
+  if case[0] != "longblock":
+    return run_exact(ctx, case)
   _, x, max_lag, order = case
   n = len(x)
   want = [sum(x[i] * x[i + t] for i in range(n - t)) for t in range(max_lag + 1)]
@@ -59,3 +240,7 @@ def run_case(ctx, case):
 
 def finish(ctx):
   ctx.need("long-blocks", 40)
+  ctx.need("exactld:equalities-checked", 100)
+  ctx.need("exactauto:equalities-checked", 100)
+  ctx.need("exactcov:equalities-checked", 50)
+  ctx.need("exactld:outside-the-float-range", 5)
